@@ -216,7 +216,7 @@ pub fn c14(ctx: &Ctx, rep: &mut Report) {
         return;
     }
     let dir = ctx.scratch("c14");
-    let n = ctx.share(30_000, 1_500_000);
+    let n = ctx.share(150_000, 4_000_000);
     let cli_every = (n / if ctx.quick() { 10 } else { 300 }).max(1);
     for i in 0..n {
         if i % 128 == 0 && ctx.out_of_time() && i > n / 10 {
@@ -254,7 +254,7 @@ pub fn c14(ctx: &Ctx, rep: &mut Report) {
         }
     }
     // the general generator's object programs as well
-    let n2 = ctx.share(8_000, 500_000);
+    let n2 = ctx.share(30_000, 1_000_000);
     for i in 0..n2 {
         if i % 128 == 0 && ctx.out_of_time() {
             break;
@@ -411,7 +411,7 @@ pub fn c07(ctx: &Ctx, rep: &mut Report) {
     rep.count("operator_triples", 13 * 13 * 13);
     // longer chains (4-9 operators), sampled, against the same independent climbing parser; written
     // with and without blanks
-    let nc = ctx.share(12_000, 600_000);
+    let nc = ctx.share(100_000, 3_000_000);
     let pool = ["a", "b", "c", "d", "e", "f", "g", "h", "i", "j"];
     for i in 0..nc {
         let mut rng = ctx.rng("C07chain", i);
@@ -517,7 +517,7 @@ pub fn c07(ctx: &Ctx, rep: &mut Report) {
         }
     }
     // (2)+(3) random parser-range ASTs, printed several ways
-    let n = ctx.share(20_000, 1_000_000);
+    let n = ctx.share(80_000, 2_000_000);
     let layouts = if ctx.quick() { 2 } else { 3 };
     for i in 0..n {
         if i % 128 == 0 && ctx.out_of_time() && i > n / 10 {
